@@ -4,6 +4,7 @@ A case is JSON: {'kind': 'func', 'n': n, 'm': m, 'table': [[bool]*2^n]*m} (one B
 all three classes x every query), or one of the small kinds 'iter', 'ttmake', 'tmodel', 'pmodel',
 'intun', 'intbin', 'utils'.  `impl_*` run the implementation, `term_*` print the Coq case,
 `oracle` evaluates the property itself (the mathematical definitions on the truth table)."""
+import copy
 import itertools
 import json
 
@@ -477,7 +478,13 @@ def impl_ttmake(case):
 
 def untri(table):
     from cirbo.core.logic import DontCare
-    return [[DontCare if v == '*' else v for v in row] for row in table]
+    # every second don't-care is an EQUAL but NOT IDENTICAL object (pickle / copy of a model table)
+    k = [0]
+
+    def dc():
+        k[0] += 1
+        return DontCare if k[0] % 2 else copy.copy(DontCare)
+    return [[dc() if v == '*' else v for v in row] for row in table]
 
 
 def to_definition(d):
